@@ -11,7 +11,6 @@ extern unsigned vh_cap_n;
 #ifndef DCAP
 #define DCAP 32
 #endif
-int vh_utf8 = 1;
 int vh_io_fail; /* 1: the stream reports an error */
 
 #if defined(VH_CBMC) && VH_CBMC
@@ -31,44 +30,3 @@ int fputc(int c, FILE *f) {
     (void)f;
     return putchar(c);
 }
-#if defined(VH_CBMC) && VH_CBMC
-static int enc(char *s, unsigned long wc) {
-    if (!vh_utf8) {
-        if (wc > 127) return -1;
-        s[0] = (char)wc;
-        return 1;
-    }
-    if (wc < 0x80) { s[0] = (char)wc; return 1; }
-    if (wc < 0x800) { s[0] = (char)(0xC0 | (wc >> 6)); s[1] = (char)(0x80 | (wc & 0x3F)); return 2; }
-    if (wc >= 0xD800 && wc <= 0xDFFF) return -1;
-    if (wc < 0x10000) { s[0] = (char)(0xE0 | (wc >> 12)); s[1] = (char)(0x80 | ((wc >> 6) & 0x3F)); s[2] = (char)(0x80 | (wc & 0x3F)); return 3; }
-    if (wc < 0x110000) { s[0] = (char)(0xF0 | (wc >> 18)); s[1] = (char)(0x80 | ((wc >> 12) & 0x3F)); s[2] = (char)(0x80 | ((wc >> 6) & 0x3F)); s[3] = (char)(0x80 | (wc & 0x3F)); return 4; }
-    return -1;
-}
-int wctomb(char *s, wchar_t wc) {
-    char t[4];
-    if (!s) return 0;
-    int n = enc(t, (unsigned long)(unsigned)wc);
-    if (n < 0) { errno = EILSEQ; return -1; }
-    for (int i = 0; i < n; i++) s[i] = t[i];
-    return n;
-}
-/* converts until the terminator or until n bytes would be exceeded; never writes more than n bytes */
-size_t wcstombs(char *dest, const wchar_t *src, size_t n) {
-    size_t o = 0;
-    for (size_t i = 0;; i++) {
-        char t[4];
-        if (src[i] == 0) {
-            if (dest && o < n) dest[o] = 0;
-            return o;
-        }
-        int k = enc(t, (unsigned long)(unsigned)src[i]);
-        if (k < 0) { errno = EILSEQ; return (size_t)-1; }
-        if (dest) {
-            if (o + (size_t)k > n) return o;
-            for (int j = 0; j < k; j++) dest[o + j] = t[j];
-        }
-        o += (size_t)k;
-    }
-}
-#endif
